@@ -489,8 +489,8 @@ int parsec_argv_delete(int *argc, char ***argv, int start, int num_to_delete)
     tmp = (char**)realloc(*argv, sizeof(char*) * (i + 1));
     if (NULL != tmp) *argv = tmp;
 
-    /* adjust the argc */
-    (*argc) -= num_to_delete;
+    /* adjust the argc by the number of tokens really deleted */
+    (*argc) -= (count - i);
 
     return PARSEC_SUCCESS;
 }
